@@ -47,6 +47,11 @@ def eval (fn : String) (args : List String) (impl : String) : Option Verdict := 
     pure { model := "alive",
            propFails := if impl == "alive" then [] else
              [s!"C18 a tick still queued when its period's last URR disappeared ({String.intercalate " " args}): afterwards the registration of the next periodic URR never returned and the UPF stopped answering ({impl}) sig=wedge:staleTick"] }
+  | "wedge.realtick" =>
+    pure { model := "alive",
+           propFails := if impl == "alive" then [] else
+             [s!"C18 a tick of the real ticker expired while the periodic server was busy and its period's last URR was removed meanwhile ({String.intercalate " " args}): afterwards " ++
+              (if impl == "noperiodic" then "no periodic usage report is forwarded any more (the periodic server has stopped serving)" else "the UPF stopped answering") ++ s!" ({impl}) sig=wedge:realTick"] }
   | _ => none
 
 end UpfVerif.Driver.ConcD
